@@ -29,24 +29,71 @@ def split_traces(out):
     return traces
 
 
+HINTS_PATH = os.path.join(VERIF, 'strategy.json')
+try: HINTS = json.load(open(HINTS_PATH))
+except Exception: HINTS = {}
+STRATS = ['n', 'p', 'nk', 'pk']   # n: one multi-path-merging BMC query; p: cbmc --paths lifo (no merging); *k: one query per event kind
+
+
+def cbmc_once(job, strat, kind, witness, trace, timeout):
+    u = job.unit
+    extra = list(job.extra) + ['--verbosity', '8']
+    if 'p' in strat: extra += ['--paths', 'lifo']
+    if kind is not None: extra += ['-DVF_KIND=%d' % kind]
+    return u.cbmc(job.h, witness=witness, timeout=timeout, unwind=job.unwind, extra=extra, trace=trace)
+
+
+def merge_results(rs):
+    out = {'rc': 0, 'time': sum(r['time'] for r in rs), 'failed': [], 'verdict': 'success', 'inputs': None,
+           'vccs': (sum((r.get('vccs') or (0, 0))[0] for r in rs), sum((r.get('vccs') or (0, 0))[1] for r in rs)),
+           'solver_s': sum(r.get('solver_s', 0) or 0 for r in rs), 'nprops': sum(r.get('nprops', 0) for r in rs),
+           'raw_tail': rs[-1]['raw_tail'], 'traces': {}}
+    for r in rs:
+        out['failed'] += r['failed']
+        out['traces'].update(r.get('traces', {}))
+        if r['verdict'] in ('error', 'timeout'): out['verdict'] = r['verdict']; out['raw_tail'] = r['raw_tail']
+    if out['verdict'] == 'success' and out['failed']: out['verdict'] = 'failed'
+    return out
+
+
+def attempt(job, strat, timeout):
+    kinds = list(range(job.unit.nevents)) if 'k' in strat else [None]
+    rs = []
+    for k in kinds:
+        r = cbmc_once(job, strat, k, True, False, timeout)
+        if r['verdict'] == 'failed' and any('witness:reachable' not in f[1] for f in r['failed']):
+            # obtain one counterexample per failed assertion
+            r2 = cbmc_once(job, strat, k, False, True, timeout * 2)
+            r['traces'] = r2.get('traces', {})
+            r['time'] += r2['time']
+        rs.append(r)
+        if r['verdict'] in ('error', 'timeout'): break
+    return merge_results(rs)
+
+
 def run_job(job):
     u = job.unit
-    r = u.cbmc(job.h, witness=True, timeout=job.timeout, unwind=job.unwind, extra=list(job.extra) + ['--verbosity', '8'], trace=False)
+    key = '%s|be%d|p%d' % (u.name, u.be, job.h)
+    first = HINTS.get(key, 'n')
+    order = [first] + [x for x in STRATS if x != first]
+    tried = []
+    r = None
+    for strat in order:
+        r = attempt(job, strat, job.timeout)
+        tried.append((strat, r['verdict'], round(r['time'], 1)))
+        if r['verdict'] not in ('timeout',): break
+    r['strategy'] = tried[-1][0]; r['tried'] = tried
     job.res = r
     real_fail = [f for f in r['failed'] if 'witness:reachable' not in f[1]]
     r['witness_ok'] = any('witness:reachable' in f[1] for f in r['failed'])
     r['real_failed'] = real_fail
     if r['verdict'] == 'failed' and not real_fail: r['verdict'] = 'success'
-    if r['verdict'] == 'failed' and real_fail:
-        # second run with traces to obtain one counterexample per failed assertion
-        inc = ['-I' + VERIF + '/harness', '-I' + VERIF + '/tools']
-        cmd = ['cbmc', u.genc, u.hc, VERIF + '/harness/vf_harness.c', VERIF + '/tools/rt.c', '-DGEN', '--function',
-               'harness_p%d' % job.h, '--unwind', str(job.unwind), '--trace'] + runner.CBMC_FLAGS + inc + list(job.extra)
-        rc, out, t = runner.run(cmd, timeout=job.timeout * 2, memlimit_gb=12)
-        tr = split_traces(out)
-        r['time'] += t
+    if r['verdict'] == 'failed':
+        seen = set()
         for pid, desc in real_fail:
-            job.cex.append({'cbmc_property': pid, 'label': desc, 'inputs': tr.get(pid)})
+            if (pid, desc) in seen: continue
+            seen.add((pid, desc))
+            job.cex.append({'cbmc_property': pid, 'label': desc, 'inputs': r.get('traces', {}).get(pid)})
     return job
 
 
@@ -152,6 +199,12 @@ class Check:
             seen.add(key); uv.append(v)
         violations = uv
         wall = time.time() - s.t0
+        if os.environ.get('VF_LEARN'):
+            for j in s.jobs:
+                k = '%s|be%d|p%d' % (j.unit.name, j.unit.be, j.h)
+                if j.res.get('strategy', 'n') != 'n' and j.res['verdict'] == 'success': HINTS[k] = j.res['strategy']
+                elif k in HINTS and j.res.get('strategy') == 'n': del HINTS[k]
+            json.dump(HINTS, open(HINTS_PATH, 'w'), indent=0, sort_keys=True)
         for rec, k in knowns[:50]:
             pass
         printed = set()
@@ -177,7 +230,7 @@ class Check:
         for j in s.jobs[:3]:
             samples.append({'program': j.unit.name, 'backend': BE_NAMES[j.unit.be], 'pre_state': j.unit.index[j.h]['conf'],
                             'prefix_script': j.unit.index[j.h]['script'], 'symbolic': 'event kind, 32-bit payload, one bit per guard site',
-                            'verdict': j.res['verdict'], 'vccs': j.res.get('vccs'), 'cbmc_s': round(j.res['time'], 2)})
+                            'verdict': j.res['verdict'], 'vccs': j.res.get('vccs'), 'cbmc_s': round(j.res['time'], 2), 'strategy': j.res.get('strategy')})
         if samples_extra: samples += samples_extra
         ev = {
             'property_id': s.prop, 'tier': s.tier, 'seed': s.seed, 'level': s.level,
@@ -201,6 +254,7 @@ class Check:
                 'bounds': s.bounds,
                 'inconclusive': [('%s be%d p%d' % (j.unit.name, j.unit.be, j.h), why) for j, why in inconclusive],
                 'known_findings_hit': sorted(set(k['id'] for _, k in knowns)),
+                'strategies_used': {st: sum(1 for j in s.jobs if j.res.get('strategy') == st) for st in STRATS},
             },
             'assumptions': s.assumptions + [
                 'claim is per catalogue machine and back-end, for all inputs of one step from each enumerated reachable configuration (induction over histories, DESIGN 1.4)',
